@@ -17,8 +17,16 @@
 (*  circ       the state prepared by the recorded gate list (exact ring     *)
 (*             evaluation) is an eigenvector of every symmetry image in S   *)
 (*             with the recorded reference eigenvalue                       *)
+(*  cliff      like circ, for circuits at Clifford-point angles (8 qubits):  *)
+(*             stabiliser engine (spec/Clifford.tla, Heisenberg pull-back   *)
+(*             of every Pauli word): <S> = v and <(S - v)^2> = 0 for every  *)
+(*             symmetry image S (for Hermitian S this IS "eigenvector with  *)
+(*             eigenvalue v": <(S-v)^2> = ||(S-v) psi||^2)                   *)
+(*  circ / cliff records come from fresh builds AND from parameter          *)
+(*  histories (C12History.tla: build, then update_var_params), where the    *)
+(*  FINAL circuit of the object is judged.                                  *)
 (***************************************************************************)
-EXTENDS C12Defs, Json, IOUtils
+EXTENDS C12Defs, Clifford, Json, IOUtils
 
 Jobs == JsonDeserialize(IOEnv.VERIF_JOBS)
 VARIABLE i
@@ -52,6 +60,18 @@ Verdict(j) ==
          IF ~(\A g \in {j.gates[x] : x \in 1..Len(j.gates)} : WellFormed(g, j.nq)) THEN "malformed-gate"
          ELSE LET psi == Run(ZeroState(j.nq), j.gates, j.nq)
               IN IF \A s \in 1..Len(j.S) : ApplyOp(Q(j.S[s].op), psi, j.nq) = ScaleVec(j.S[s].v, psi, Dim(j.nq))
+                 THEN "ok" ELSE "state-leaves-the-symmetry-sector"
+    [] j.k = "cliff" ->
+         IF ~(\A g \in {j.gates[x] : x \in 1..Len(j.gates)} : WellFormed(g, j.nq)) THEN "malformed-gate"
+         ELSE IF ~AllClifford(j.gates) THEN "off-carrier"
+         ELSE LET rev == Reverse(DecomposeAll(j.gates))
+                  EZ(w) == LET r == FoldLeft(LAMBDA acc, e : ConjE(acc, InvE(e)), Signed(w), rev)
+                           IN IF \E q \in 1..j.nq : r.w[q] \in {1, 2} THEN RZero ELSE IF r.s = 0 THEN ROne ELSE Neg(ROne)
+                  EX(A) == FoldSet(LAMBDA w, acc : Add(acc, Mul(A[w], EZ(w))), RZero, DOMAIN A)
+              IN IF \A s \in 1..Len(j.S) :
+                      LET A  == Q(j.S[s].op)
+                          sh == OpSub(A, OpScale(j.S[s].v, OpIdentity(j.nq)))
+                      IN EX(A) = j.S[s].v /\ EX(OpMul(sh, sh, j.nq)) = RZero
                  THEN "ok" ELSE "state-leaves-the-symmetry-sector"
     [] OTHER -> "malformed"
 
